@@ -226,6 +226,8 @@ func propGen(prop, tier string, idx int) GenOpts {
 		o.PVoid = 150
 		o.NoOptionalFail = false
 		o.PBuildCancel = 120
+		o.PCycle, o.PCaptive, o.PMissing, o.PDup = 60, 50, 50, 50
+		o.NoGroupCycle = false
 		if idx%4 == 3 {
 			// constructions overlapping a Close whose late instance fails to close: the error keeps its class
 			conc(2, 3)
